@@ -28,6 +28,39 @@ def build_zv():
     run(["cargo", "build", "--release", "--offline", "-p", "zv"], HARNESS, cargo_env(), "harness build")
     return os.path.join(TARGET, "zv", "release", "zv")
 
+FEATDRV = os.path.join(VERIF, "featdrv")
+FEATDRV_CONFIGS = {"std_hash": "std,hash", "std": "std", "hash": "hash", "none": ""}
+
+def build_featdrv():
+    """the C18 driver, once per feature set of ruzstd (hook cfg off: it uses the public API only)"""
+    env = dict(os.environ)
+    env["CARGO_NET_OFFLINE"] = "true"
+    env.pop("RUSTFLAGS", None)
+    out = {}
+    for name, feats in FEATDRV_CONFIGS.items():
+        env["CARGO_TARGET_DIR"] = os.path.join(TARGET, "featdrv-" + name)
+        cmd = ["cargo", "build", "--release", "--offline"] + (["--features", feats] if feats else [])
+        run(cmd, FEATDRV, env, f"featdrv build ({name})")
+        out[name] = os.path.join(TARGET, "featdrv-" + name, "release", "featdrv")
+    return out
+
+def build_cli():
+    """the repository's command line tool (release), for C19"""
+    env = dict(os.environ)
+    env["CARGO_NET_OFFLINE"] = "true"
+    env.pop("RUSTFLAGS", None)
+    env["CARGO_TARGET_DIR"] = os.path.join(TARGET, "cli")
+    run(["cargo", "build", "--release", "--offline", "-p", "ruzstd-cli"], REPO, env, "cli build")
+    return os.path.join(TARGET, "cli", "release", "ruzstd-cli")
+
 def pre_run(pid, tier, env):
     """property-specific preparation (extra builds). Returns an exit code to stop, or None to continue."""
+    try:
+        if pid == "C18":
+            build_featdrv()
+        if pid == "C19":
+            env["VERIF_CLI"] = build_cli()
+    except BuildError as e:
+        print(f"MACHINERY-ERROR build failed:\n{e}")
+        return 2
     return None
